@@ -67,12 +67,19 @@ pull_api {
     path /pull/one
   }
 }
+/small {
+  max_body 64
+  pull {
+    path /pull/small
+  }
+}
 `
 
 var crashTargets = map[string][]string{
-	"/fan": {"http://127.0.0.1:9/a", "http://127.0.0.1:9/b", "http://127.0.0.1:9/c"},
-	"/two": {"http://127.0.0.1:9/x", "http://127.0.0.1:9/y"},
-	"/one": {"pull"},
+	"/fan":   {"http://127.0.0.1:9/a", "http://127.0.0.1:9/b", "http://127.0.0.1:9/c"},
+	"/two":   {"http://127.0.0.1:9/x", "http://127.0.0.1:9/y"},
+	"/one":   {"pull"},
+	"/small": {"pull"},
 }
 
 type crashSend struct {
@@ -197,6 +204,16 @@ func cmdCrashChild(args []string) error {
 				body = fmt.Sprintf(`{"lease_ids":["lease_nobody_%d_a","lease_nobody_%d_b"],"delay":"1h"}`, i, i)
 			}
 			do(pull, "POST", "http://ex/pull/one/"+op, body, map[string]string{"Authorization": "Bearer t"})
+		case k == 0 && r.chance(6): // a body above the route's max_body sent without a declared length: refused, nothing stored
+			s.Kind, s.Route = "ingress", "/small"
+			s.Targets, s.Body = crashTargets[s.Route], fmt.Sprintf("r%d-%d-%s", *seed, i, strings.Repeat("x", 90))
+			req := httptest.NewRequest("POST", "http://ex/small", onlyReader{strings.NewReader(s.Body)})
+			req.ContentLength = -1
+			rr := httptest.NewRecorder()
+			say("SEND", s)
+			ing.ServeHTTP(rr, req)
+			s.Status, s.Done = rr.Code, true
+			say("DONE", s)
 		case k == 0: // ingress with fan-out
 			s.Kind, s.Route = "ingress", pick(r, []string{"/fan", "/fan", "/two", "/one"})
 			s.Targets, s.Body = crashTargets[s.Route], fmt.Sprintf("r%d-%d", *seed, i)
